@@ -785,6 +785,9 @@ def make_resolver(vk_all, jix, vix=None):
                 return None
             src, tgt = conv
             cs = [c for c in jix.candidates("from") if count_args(c[1]) == 1 and first_arg_type(c[1]) == src and ret_type_of(c) == tgt]
+            if len(cs) > 1:
+                # `impl From<T>` and `impl From<&T>`: the value reaching us is by value
+                cs = [c for c in cs if not c[1].strip().startswith("_1: &")]
             return jix.get(cs[0][2]) if len(cs) == 1 else None
         f = mirenc.norm_callee(func)
         if "{closure" in f:
@@ -812,6 +815,10 @@ def make_resolver(vk_all, jix, vix=None):
         sg = mirenc.strip_generics(f)
         segs = sg.split("::")
         last = segs[-1]
+        mi = re.search(r"<impl (.+)>::(\w+)$", func.strip())
+        if mi and len(segs) >= 2:
+            # method of an inherent (possibly generic) impl: `path::<impl Type<Args>>::method`
+            segs = segs[:-2] + [mirenc.strip_generics(mi.group(1)).split("::")[-1], last]
         loc = vk_all.get(sg) or vk_all.get(last)
         if loc is not None and len(loc.args) == nargs:
             return loc
@@ -822,6 +829,12 @@ def make_resolver(vk_all, jix, vix=None):
             owner = segs[-2]
             meth = [c for c in cands if "<impl at" in c[0] and first_arg_type(c[1]) == owner]
             free = [c for c in cands if "<impl at" not in c[0] and (c[0].split("::")[-2:-1] in ([owner], []))]
+            if len(meth) > 1:
+                # same type name in several modules: prefer the impl whose module path matches the call path
+                callmod = "::".join(sg.split("::")[:-2])
+                m2 = [c for c in meth if callmod.endswith(c[0].split("::<impl")[0])]
+                if len(m2) == 1:
+                    meth = m2
             if len(meth) == 1:
                 return jix.get(meth[0][2])
             if not meth and len(free) == 1:
